@@ -63,8 +63,8 @@ func c14Filters(r *hx.RNG) (c14Stats, error) {
 						return
 					}
 				}
-				src.SetReadDeadline(time.Now().Add(20 * time.Millisecond))
-				n, err := src.Read(buf)
+				var n int
+				err := readRobust(src, fds[1], func() (e error) { n, e = src.Read(buf); return })
 				switch {
 				case err != nil && errors.Is(err, os.ErrDeadlineExceeded):
 					errs[g] = fmt.Errorf("the filter installed for %v->%v hides a frame of that very tuple (another run's program is attached)", spec.FilterConfig.Src, spec.FilterConfig.Dst)
